@@ -569,6 +569,10 @@ func (this *LedgerStoreImp) SubmitBlock(block *types.Block, result store.Execute
 	}
 	// the validator set in force changes only once the announcing block is committed
 	this.vbftPeerInfoblock = peerInfo
+	if this.GetCurrentHeaderHeight() == blockHeight {
+		// no headers ahead of this block: header verification continues from the same set
+		this.vbftPeerInfoheader = peerInfo
+	}
 	this.delHeaderCache(block.Hash())
 	return nil
 }
@@ -597,6 +601,10 @@ func (this *LedgerStoreImp) AddBlock(block *types.Block, stateMerkleRoot common.
 	// the validator set in force changes only once the announcing block is committed
 	if this.GetCurrentBlockHeight() == blockHeight {
 		this.vbftPeerInfoblock = peerInfo
+		if this.GetCurrentHeaderHeight() == blockHeight {
+			// no headers ahead of this block: header verification continues from the same set
+			this.vbftPeerInfoheader = peerInfo
+		}
 	}
 	this.delHeaderCache(block.Hash())
 	return nil
